@@ -374,17 +374,22 @@ def param_names(sig):
 
 
 def rename_map(recorded, current, text):
-    """pinned name -> current name, for names that were RENAMED: same number of bindings, the pinned name no longer occurs in the
-    function's text at all, the name now at its ordinal is new.  Anything else (added/removed/reordered bindings) maps nothing."""
-    if not recorded or len(recorded) != len(current):
+    """pinned name -> current name, for names that were RENAMED.  The two binding lists are aligned (difflib); a run of k pinned names
+    replaced by a run of k other names maps pairwise, provided the pinned name no longer occurs in the function's text at all and
+    the new name is not one of the pinned names.  Bindings that were added or removed map nothing (and do not disturb the alignment
+    of the others); reordered bindings keep their names, so they map nothing either."""
+    if not recorded or not current:
         return {}
+    import difflib
     words = set(re.findall(r'[A-Za-z_]\w*', text))
     mp = {}
-    for old, new in zip(recorded, current):
-        if old != new and old not in words and new not in recorded:
-            if mp.get(old, new) != new:
-                return {}
-            mp[old] = new
+    for op, i1, i2, j1, j2 in difflib.SequenceMatcher(a=recorded, b=current, autojunk=False).get_opcodes():
+        if op == 'replace' and i2 - i1 == j2 - j1:
+            for old, new in zip(recorded[i1:i2], current[j1:j2]):
+                if old != new and old not in words and new not in recorded:
+                    if mp.get(old, new) != new:
+                        return {}
+                    mp[old] = new
     return mp
 
 
